@@ -38,8 +38,13 @@ def total_sx(ks):
 def run_grown_case(c):
     """-> list of (what, implementation observation, model command or None, expected if no command)"""
     kd = kd_from_json(c['kripke'])
-    K = kd_py(kd)
+    r0 = call(lambda: kd_py(kd))
     f = detuple(c['formula'])
+    if r0[0] != 'ok':
+        # the constructor itself fails on a valid total structure: reported against the model's constructor
+        return [('Kripke(S, S0, R, L) of the initial structure', ['err', r0[1]], ['kripke', list(kd['S']), list(kd['S0']), [list(e) for e in kd['R']],
+                                                                          [[s, [Q(a) for a in ls]] for s, ls in kd['L'].items()]], None)]
+    K = r0[1]
     obs = []
     for op in c['ops']:
         before = kripke_sx(K)
@@ -81,7 +86,11 @@ def canon_k(ks):
 def judge(obs, outs):
     bad = []
     for (what, impl, cmd, before), o in zip(obs, outs):
-        if cmd[0] in ('kaddnode', 'kaddedge'):
+        if cmd[0] == 'kripke':
+            exp = ['ok'] if o[0] == 'ok' else ['err', o[1]]
+            if impl[:2] != exp[:2] and not (impl[0] == 'ok' == exp[0]):
+                bad.append((what, impl, exp))
+        elif cmd[0] in ('kaddnode', 'kaddedge'):
             if o[0] == 'ok':
                 exp = ['ok', canon_k(o[1])]
             else:
